@@ -74,6 +74,25 @@ def project(dut) -> Dict[str, Any]:
     }
 
 
+def progress(dut) -> int:
+    """Sum of the counters of every timed operation in flight on the node (software restart / install / fix, node
+    scans, folder scans and restores): a tick that advances any of them changes it."""
+    tot = 0
+    for sw in dut.software_manager.software.values():
+        for attr in ("restart_countdown", "install_countdown", "_fixing_countdown"):
+            v = getattr(sw, attr, None)
+            tot += int(v) if isinstance(v, int) and v > 0 else 0
+    for attr in ("node_scan_countdown", "red_scan_countdown"):
+        v = getattr(dut, attr, None)
+        tot += int(v) if isinstance(v, int) and v > 0 else 0
+    fs = getattr(dut, "file_system", None)
+    for fo in (fs.folders.values() if fs is not None else []):
+        for attr in ("scan_countdown", "restore_countdown"):
+            v = getattr(fo, attr, None)
+            tot += int(v) if isinstance(v, int) and v > 0 else 0
+    return tot
+
+
 def other_requests(kind: str) -> List[List[Any]]:
     if kind in ("computer", "server", "printer"):
         return [
@@ -125,9 +144,9 @@ def run_behaviour(cnt: Counter, kind: str, up: int, down: int, beh: List[Dict[st
     }
     others = other_requests(kind)
 
-    def emit(evname, kind_="", ok=False, acc=0, em=0):
+    def emit(evname, kind_="", ok=False, acc=0, em=0, prog0=0):
         p = project(dut)
-        trace["ev"].append({"ev": evname, "kind": kind_, "ok": bool(ok), "acc": acc, "emit": em, **p})
+        trace["ev"].append({"ev": evname, "kind": kind_, "ok": bool(ok), "acc": acc, "emit": em, "prog0": prog0, "prog": progress(dut), **p})
 
     def req(tail):
         return game.simulation.apply_request(["network", "node", info["dut"]] + tail)
@@ -142,11 +161,13 @@ def run_behaviour(cnt: Counter, kind: str, up: int, down: int, beh: List[Dict[st
                 emit("ReqPower", k, getattr(r, "status", None) == "success")
             elif a == "MTick":
                 trace["stimulus"]["actions"].append("tick")
+                p0 = progress(dut)
                 game.pre_timestep()
                 game.advance_timestep()
-                emit("Tick")
+                emit("Tick", prog0=p0)
             elif a == "MOther":
-                tail = rng.choice(others)
+                tail = stp["params"].strip('"').split("/") if stp.get("params") else rng.choice(others)
+                tail = [int(x) if isinstance(x, str) and x.isdigit() else x for x in tail]
                 if tail == ["startup"] and dut.operating_state.name == "OFF":
                     continue  # that would be a power request, not "another request"
                 trace["stimulus"]["actions"].append(tail)
@@ -166,7 +187,7 @@ def run_behaviour(cnt: Counter, kind: str, up: int, down: int, beh: List[Dict[st
                 dut.ping(info["peer_ip"], pings=1)
                 emit("TryEmit", "", False, 0, cnt.emit)
     except Exception as e:  # noqa  - an exception out of repository code is an event no module allows
-        trace["ev"].append({"ev": "Raised", "kind": type(e).__name__, "ok": False, "acc": 0, "emit": 0, **project(dut)})
+        trace["ev"].append({"ev": "Raised", "kind": type(e).__name__, "ok": False, "acc": 0, "emit": 0, "prog0": 0, "prog": 0, **project(dut)})
         trace["meta"]["exception"] = repr(e)
     cnt.dut = None
     return trace
@@ -228,6 +249,20 @@ def main(tier: str, seed: int) -> int:
                     tr["meta"]["directed"] = f"{target}/{kind}"
                     traces.append(tr)
                     chk.add_case({"kind": kindn, "up": up, "down": down, "edge": f"{target}/{kind}"})
+    # timed operations in flight when the node leaves ON (and while it is OFF / booting): nothing advances until it is ON again
+    inflight = {"computer": ["service/ntp-client/restart", "service/dns-client/fix", "os/scan", "file_system/folder/root/scan",
+                             "file_system/folder/root/restore", "application/web-browser/fix"],
+                "router": ["os/scan", "file_system/folder/root/scan"]}
+    for kindn, ops in inflight.items():
+        for op in ops:
+            for leave in ("shutdown", "reset"):
+                for down in (1, 3):
+                    beh = [{"action": "Init", "params": "", "state": {"upDur": 2, "downDur": down}}, step("MOther", f'"{op}"'),
+                           step("MPower", f'"{leave}"')] + [step("MTick")] * (down + 3) + [step("MPower", '"startup"')] + [step("MTick")] * 8
+                    tr = run_behaviour(cnt, kindn, 2, down, beh, rng)
+                    tr["meta"]["directed"] = f"inflight:{op}/{leave}"
+                    traces.append(tr)
+                    chk.add_case({"kind": kindn, "inflight": op, "leave": leave, "down": down})
     res = tlc.validate("NodePowerTrace", traces)
     common.judge_traces(chk, "NodePower", traces, res, sig_fn, selftest="NodePowerTrace")
     for tr in traces[:2]:
